@@ -31,9 +31,13 @@ func typeOfAst(e ast.Expr) *progen.Type {
 }
 
 // catalogueCases writes the catalogue packages into mod/c and returns them as cases.
-func catalogueCases(mod string, only string) []*caseT {
+func catalogueCases(mod string, only string, conc bool) []*caseT {
 	var cases []*caseT
-	for _, it := range catalog.Items() {
+	items := catalog.Items()
+	if conc {
+		items = catalog.ConcItems()
+	}
+	for _, it := range items {
 		if only != "" && !strings.Contains(it.ID, only) {
 			continue
 		}
@@ -110,7 +114,7 @@ func catalogueCases(mod string, only string) []*caseT {
 			}
 			pkg.Calls = append(pkg.Calls, cl)
 		}
-		cases = append(cases, &caseT{name: it.ID, dir: "c/" + it.ID, pkg: pkg, src: src, native: map[int]string{}, model: map[int]string{}, decls: declNames})
+		cases = append(cases, &caseT{name: it.ID, dir: "c/" + it.ID, pkg: pkg, src: src, native: map[int]string{}, model: map[int]string{}, decls: declNames, nondet: it.Nondet})
 	}
 	return cases
 }
